@@ -83,9 +83,11 @@ Print Assumptions pending_machine_example.
    is the binding lexical scoping defines, and no InvalidStackContextException is raised.
    ok_root true = well-formed tree, no local shadows a local (XSLT 1.0 11.5), and the exact guard
    of finding K-C01-1: a reference not bound locally is not to a name passed by a with-param of the
-   enclosing invocation. *)
-Theorem varstack_refines_lexical_env_partial : forall globals root,
-  ok_root true root = true -> impl_run globals root = Some (spec_run globals root).
+   enclosing invocation. rs selects the variant of the end of a template instance: false = the tree with
+   K-C01-1 (resetParams never called), true = params deactivated when the template's frame is popped;
+   XsltFactsModel.reset_variant says which one the current source has. *)
+Theorem varstack_refines_lexical_env_partial : forall rs globals root,
+  ok_root true root = true -> impl_run rs globals root = Some (spec_run globals root).
 Proof. exact varstack_refines_lexical_env_partial_thm. Qed.
 Print Assumptions varstack_refines_lexical_env_partial.
 
@@ -94,9 +96,14 @@ Print Assumptions varstack_refines_lexical_env_partial.
    called), where it shadows the top-level variable of the same name *)
 Theorem varstack_refines_lexical_env_refuted :
   ok_root false leak_witness = true /\
-  impl_run [(5, 100)]%N leak_witness <> Some (spec_run [(5, 100)]%N leak_witness).
+  impl_run false [(5, 100)]%N leak_witness <> Some (spec_run [(5, 100)]%N leak_witness).
 Proof. exact varstack_refines_lexical_env_refuted_thm. Qed.
 Print Assumptions varstack_refines_lexical_env_refuted.
+
+Example leak_witness_behaves_lexically_once_repaired :
+  impl_run true [(5, 100)]%N leak_witness = Some (spec_run [(5, 100)]%N leak_witness).
+Proof. exact leak_witness_repaired. Qed.
+Print Assumptions leak_witness_behaves_lexically_once_repaired.
 
 (* m_currentStackFrameIndex equals the stack size after every sequence of stack operations *)
 Theorem csfi_tracks_size : forall ops, tracks (fold_left (fun s o => rstep o s) ops vs_init).
@@ -110,7 +117,7 @@ Example varstack_example :
   let w := (Tmpl 1 [(8, 80)] [Var 6 60; Use 6; Use 8; Block 9 [Use 5; Var 5 50; Use 5]; Block 9 [Use 5; Var 5 51; Use 5]; Use 5;
               Invoke [(5, 7); (4, 9)] [Tmpl 2 [(4, 1); (5, 2); (3, 30)] [Use 5; Use 4; Use 3; Use 6]]; Use 6])%N in
   ok_root true w = true /\
-  impl_run [(5, 100); (6, 600)]%N w =
+  impl_run false [(5, 100); (6, 600)]%N w =
     Some [(6, Some 60); (8, Some 80); (5, Some 100); (5, Some 50); (5, Some 100); (5, Some 51); (5, Some 100);
           (5, Some 7); (4, Some 9); (3, Some 30); (6, Some 600); (6, Some 60)]%N.
 Proof. vm_compute. split; reflexivity. Qed.
